@@ -6,7 +6,7 @@ use checks_ice::domain::Domain;
 use iceoryx2::port::reader::{EntryHandle, Reader};
 use iceoryx2::port::writer::{EntryHandleMut, Writer};
 use iceoryx2::prelude::*;
-use iceoryx2::service::port_factory::blackboard::PortFactory;
+use iceoryx2::service::port_factory::blackboard::PortFactory as BbFactory;
 use iceoryx2_bb_lock_free::spmc::unrestricted_atomic::{Producer, UnrestrictedAtomic};
 use vcore::Failure;
 
@@ -154,12 +154,18 @@ pub struct Board<S: Service, T: Payload> {
     pub rsides: Vec<PortReader<S, T>>,
     _readers: Vec<Reader<S, u64>>,
     _writer: Writer<S, u64>,
-    _svc: PortFactory<S, u64>,
+    _svc: BbFactory<S, u64>,
     _node: Node<S>,
     domain: Domain,
 }
 
 pub const KEY: u64 = 0;
+
+/// Open known finding: the payload segment of a blackboard is carved by
+/// `iceoryx2_cal::shm_allocator::bump_allocator::BumpAllocator`, whose `max_alignment()` is the
+/// constant 8; `add::<T>()` with `align_of::<T>() > 8` (u128, SIMD types, cache-line aligned
+/// structs) makes `create()` fail with `BlackboardCreateError::ServiceInCorruptedState`.
+pub const OVERALIGNED: &str = "blackboard.value_alignment_above_8_refused";
 
 impl<S: Service, T: Payload> Board<S, T> {
     pub fn new(nreaders: usize, initial: T) -> Result<Self, Failure> {
@@ -176,7 +182,10 @@ impl<S: Service, T: Payload> Board<S, T> {
             .max_readers(nreaders.max(1))
             .add::<T>(KEY, initial)
             .create()
-            .map_err(|e| fail(&domain, format!("blackboard with a {} value: {e:?}", T::NAME)))?;
+            .map_err(|e| {
+                domain.cleanup();
+                Failure::new(if T::A > 8 { OVERALIGNED } else { "setup" }, format!("blackboard with a {} value (alignment {}): {e:?}", T::NAME, T::A))
+            })?;
         let writer = svc.writer_builder().create().map_err(|e| fail(&domain, format!("writer: {e:?}")))?;
         let h = writer.entry::<T>(&KEY).map_err(|e| fail(&domain, format!("writer entry: {e:?}")))?;
         let mut readers = vec![];
